@@ -303,6 +303,16 @@ let run_transfer (toks : string list) : string =
   | "bad" :: _ -> "err"
   | _ -> "?bad-case"
 
+(* "a | b | c" -> ["a"; "b"; "c"] *)
+let split_bar (s : string) : string list =
+  let n = String.length s in
+  let rec go start i acc =
+    if i + 3 > n then List.rev (String.sub s start (n - start) :: acc)
+    else if String.sub s i 3 = " | " then go (i + 3) (i + 3) (String.sub s start (i - start) :: acc)
+    else go start (i + 1) acc
+  in
+  go 0 0 []
+
 (* ---- component: tsdiff (C01) -----------------------------------------------
    case:   tsd <mine> <other>     each side `-` or name=stamp,name=stamp,... (hex stamps,
                                   names of one ASCII letter)
@@ -643,7 +653,41 @@ let () =
     (* hx-restart: "<backend> act ..." - the actor model, whatever the backend *)
     | "restart" ->
       canon_dump := true;
-      (fun toks -> match toks with _ :: rest -> run_actor_gen false true rest | [] -> "?bad-case")
+      (fun toks ->
+        match toks with
+        | _ :: "mks" :: pr :: reqs ->
+          (* several keyspaces on one store (hx-restart `mks`): keyspaces never interact, so each is
+             the actor model run on its own requests (plus every restart); a request shows its own
+             keyspace, a restart shows all three *)
+          let nks = 3 in
+          let split tok =
+            match String.index_opt tok '/' with
+            | Some i -> (int_of_string (String.sub tok 0 i) mod nks, String.sub tok (i + 1) (String.length tok - i - 1))
+            | None -> (0, tok)
+          in
+          let outs =
+            Array.init nks (fun j ->
+                let mine =
+                  List.filter_map
+                    (fun tok -> if tok = "R" then Some "R" else let k, inner = split tok in if k = j then Some inner else None)
+                    reqs
+                in
+                let r = run_actor_gen false true ("act" :: pr :: mine) in
+                ref (if mine = [] then [] else split_bar r))
+          in
+          let take j =
+            match !(outs.(j)) with
+            | x :: rest -> outs.(j) := rest; x
+            | [] -> "?short"
+          in
+          String.concat " | "
+            (List.map
+               (fun tok ->
+                 if tok = "R" then String.concat " ; " (List.init nks take)
+                 else take (fst (split tok)))
+               reqs)
+        | _ :: rest -> run_actor_gen false true rest
+        | [] -> "?bad-case")
     | _ -> prerr_endline ("unknown component " ^ comp); exit 2
   in
   let out = Buffer.create 65536 in
